@@ -32,8 +32,8 @@ def model_check(ctx):
                  ("f32-ovf", dict(f32, ELo=101, EHi=130))]
     else:
         runs += [("f32-all", dict(f32, ELo=-185, EHi=135)),
-                 ("f64-sub", dict(f64, ELo=-1142, EHi=-1000)), ("f64-one", dict(f64, ELo=-12, EHi=12)),
-                 ("f64-ovf", dict(f64, ELo=955, EHi=1030))]
+                 ("f64-sub", dict(f64, ELo=-1140, EHi=-1066)), ("f64-one", dict(f64, ELo=-12, EHi=12)),
+                 ("f64-ovf", dict(f64, ELo=962, EHi=1030))]
     seen = set()
     for name, consts in runs:
         c = dict(base)
